@@ -23,7 +23,11 @@ func init() {
 		return s, true
 	}
 	intrinsics["fmt.Errorf"] = func(in *Interp, fr *frame, a []Value) (Value, bool) {
+		// error texts with symbolic parts are never inspected by a check:
+		// %q of a symbolic string stays an uninterpreted term
+		in.inErrorf++
 		s, wrapped := in.sprintf(fr, a[0], a[1].([]Value))
+		in.inErrorf--
 		return in.mkFmtError(s, wrapped), true
 	}
 	intrinsics["fmt.Sprint"] = func(in *Interp, fr *frame, a []Value) (Value, bool) {
@@ -158,7 +162,7 @@ func (in *Interp) quoteString(fr *frame, s Value) Value {
 	case string:
 		return strconv.Quote(x)
 	case XStr:
-		if in.prog.Params["fmt_q_opaque"] == 1 {
+		if in.inErrorf > 0 || in.prog.Params["fmt_q_opaque"] == 1 {
 			// the check does not depend on the quoted text (error messages)
 			return OStr{in.ctx.App("fmt_q", smt.SeqSort, in.seqTerm(x))}
 		}
